@@ -220,7 +220,7 @@ impl TxGen<'_, '_> {
             0 => ARef::User(self.g.below(N_USERS) as u8),
             1 => ARef::C(CRef(self.g.below(6) as u8)),
             2 => ARef::Fresh(self.g.below(3) as u8),
-            3 => ARef::Raw(self.g.below(3) as u8),
+            3 => ARef::Raw(self.g.below(4) as u8),
             _ => ARef::Alien(self.g.below(N_USERS) as u8),
         }
     }
@@ -352,9 +352,22 @@ impl TxGen<'_, '_> {
             }
         }
         if self.g.chance(c.max(3), 16) {
-            n.data = match self.g.weighted(&[2, 5, 1]) {
+            n.data = match self.g.weighted(&[2, 5, 1, 2]) {
                 0 => DataSpec::Some(Hx(vec![])),
                 1 => DataSpec::Some(Hx(format!("d{}", idx).into_bytes())),
+                // data that itself looks like an encoded execute / instantiate response (field 1 = bytes
+                // or address, field 2 = bytes): must be wrapped again like any other data
+                3 => DataSpec::Some(Hx(match self.g.below(4) {
+                    0 => vec![0x0a, 0x02, b'd', b'1'],
+                    1 => vec![0x0a, 0x03, b'a', b'b', b'c', 0x12, 0x01, 0xff],
+                    2 => {
+                        let a = self.hostile.first().cloned().unwrap_or_else(|| b"addr".to_vec());
+                        let mut v = vec![0x0a, a.len().min(120) as u8];
+                        v.extend(a.iter().take(120));
+                        v
+                    }
+                    _ => vec![0x12, 0x00],
+                })),
                 _ => {
                     let len = 1 + self.g.below(40);
                     DataSpec::Some(Hx((0..len).map(|_| self.g.byte()).collect()))
@@ -405,7 +418,21 @@ impl TxGen<'_, '_> {
                 if self.budget == 0 {
                     break;
                 }
-                let s = self.sub(depth);
+                let mut s = self.sub(depth);
+                // sometimes a sibling repeats the id and payload (often also the reply mode) of the sibling
+                // before it
+                if self.g.chance(1, 8) {
+                    if let Some(prev) = n.subs.last() {
+                        // (each keeps a reply node of its own; the modes may differ unless one of them has none)
+                        if (prev.reply_on == RO::Never) == (s.reply_on == RO::Never) {
+                            s.id = prev.id;
+                            s.payload = prev.payload.clone();
+                            if self.g.bool() {
+                                s.reply_on = prev.reply_on;
+                            }
+                        }
+                    }
+                }
                 n.subs.push(s);
             }
         }
@@ -563,8 +590,8 @@ pub fn gen_history(g: &mut Gen, p: &Profile, contracts_hint: &[&str]) -> History
         codes.push(c);
     }
     let staking = g.chance(p.staking_p, 16);
-    let addr_pool = if g.chance(if p.registry || p.hostile_keys { 4 } else { 1 }, 16) { 2 + g.below(3) as u8 } else { 0 };
-    let setup = Setup { balances, codes, validators: if staking { 2 } else { 0 }, unbonding_time: g.pick(&[60u64, 0, 10]), addr_pool };
+    let addr_pool = if g.chance(if p.registry || p.hostile_keys { 4 } else { 1 }, 16) { (2 + g.below(3) as u8) | if g.chance(1, 3) { 128 } else { 0 } } else { 0 };
+    let setup = Setup { balances, codes, validators: if staking { 2 } else { 0 }, unbonding_time: g.pick(&[60u64, 0, 10]), addr_pool, api: g.below(2) as u8 };
     let hostile = hostile_keys(contracts_hint);
     let mut txs = vec![];
     let ntx = 2 + g.below(p.max_tx);
@@ -644,7 +671,12 @@ pub fn gen_history(g: &mut Gen, p: &Profile, contracts_hint: &[&str]) -> History
                     let coins = (0..n).map(|_| CoinSpec { denom: tg.g.below(3) as u8, amt: Amt::Exact(tg.g.weighted(&[1, 8]) as u128 * (1 + tg.g.below(50) as u128)) }).collect();
                     TxKind::BankMint { to, coins }
                 }
-                4 => TxKind::Block { dh: tg.g.below(4) as u64, dt: tg.g.below(100) as u64, set: tg.g.bool(), chain: if tg.g.chance(1, 4) { Some(tg.g.below(3) as u8) } else { None } },
+                4 => {
+                    let chain = if tg.g.chance(1, 4) { Some(tg.g.below(3) as u8) } else { None };
+                    // sometimes only the chain id changes (neither height nor time)
+                    let still = chain.is_some() && tg.g.chance(1, 2);
+                    TxKind::Block { dh: if still { 0 } else { tg.g.below(4) as u64 }, dt: if still { 0 } else { tg.g.below(100) as u64 }, set: tg.g.bool(), chain }
+                }
                 5 => TxKind::Store(gen_codespec(tg.g, p)),
                 7 => TxKind::Slash { v: tg.vidx(), percent: tg.g.below(3) as u8 },
                 _ => {
